@@ -87,6 +87,8 @@ def gen_plan(rng, profile: dict, seed: int) -> dict:
             "mode": mode, "cfg": cfg, "model_key": rng.getrandbits(31), "twin_key": rng.getrandbits(31), "x_seed": rng.getrandbits(24),
             "events": gen_events(rng),
         }
+    if mode == "wrapper":
+        return gen_wrapper_plan(rng)
     cls = rng.choice(SER_CLASSES)
     if cls in ("ConvContract", "ConvBlock", "ResNet"):
         cfg = zoo.gen_cfg(rng, classes=[cls], dims=(2, 2, 3))
@@ -224,8 +226,161 @@ def conform(out, cfg: dict, expected: list, x, ordered: bool) -> Optional[dict]:
     return None
 
 
+# --------------------------------------------------------------------------- wrapper classes with an exact oracle (C20)
+class _Identity(eqx.Module):
+    """inner 'network' of a ModelWrapper: returns its (channels, spatial...) array unchanged, so that the wrapper's
+    flattening of tensor components into scalar channels followed by its inverse must reproduce the input exactly"""
+    gain: jax.Array
+
+    def __init__(self):
+        self.gain = jnp.ones(())
+
+    def __call__(self, x):
+        return x * self.gain
+
+
+def gen_wrapper_plan(rng) -> dict:
+    cls = rng.choice(["ModelWrapper", "ModelWrapper", "GroupAverage", "Climate1D"])
+    if cls == "Climate1D":
+        D = 2
+        c, past = rng.randint(1, 2), rng.randint(1, 3)
+        types = rng.choice([[(0, 0)], [(0, 0), (1, 0)], [(1, 0), (0, 0)], [(0, 1), (1, 0), (0, 0)], [(1, 0)], [(0, 0), (0, 1)]])
+        sig = [[k, p, c * past] for k, p in types]
+        spatial = rng.choice([[4, 3], [3, 4], [4, 4], [2, 5], [c * past * len(types), 3], [3, c * past * len(types)]])
+        extra = {"c": c, "past": past}
+    else:
+        D = rng.choice([2, 2, 3])
+        sig = zoo.gen_sig(rng, D, 2 if D == 2 else 1, n_max=3, cmax=3)
+        total = sum(c * D**k for k, _, c in sig)
+        r = rng.random()
+        if cls == "GroupAverage":
+            n = rng.choice([2, 3, 4, total if total <= 6 else 3])
+            spatial = [n] * D  # the group acts on square grids
+        elif r < 0.35:
+            # a spatial extent that coincides with the number of scalar channels (axes must not be confused)
+            spatial = [rng.randint(2, 4)] * D
+            spatial[rng.choice([0, D - 1])] = total if total <= 12 else rng.randint(2, 5)
+        else:
+            spatial = [rng.randint(1, 5) for _ in range(D)]
+        extra = {"n_ops": rng.choice([1, 2, 4, 8]), "always": rng.random() < 0.5}
+    evs = []
+    for _ in range(rng.randint(1, 5)):
+        evs.append(rng.choice([{"ev": "tree_map"}, {"ev": "inference", "value": rng.random() < 0.7}, {"ev": "jit_call"},
+                               {"ev": "transported_input", "kind": rng.choice(["jit", "tree", "reverse"])}, {"ev": "other_dimension"}]))
+    return {"mode": "wrapper", "cfg": {"cls": cls, "D": D, "sig": sig, "spatial": spatial, "torus": rng.choice([True, False, "mixed"]), **extra},
+            "model_key": 0, "twin_key": 0, "x_seed": rng.getrandbits(24), "events": evs}
+
+
+def _int_input(sig, D, spatial, torus, seed):
+    rs = np.random.RandomState(seed % (2**31 - 1))
+    if torus == "mixed":
+        torus = tuple(i % 2 == 0 for i in range(D))
+    data = {(k, p): jnp.asarray(rs.randint(-40, 41, size=(c,) + tuple(spatial) + (D,) * k).astype(np.float32)) for k, p, c in sig}
+    return geom.MultiImage(data, D, torus)
+
+
+def _build_wrapper(cfg):
+    D, s = cfg["D"], zoo.sig(cfg["sig"])
+    flags = tuple(i % 2 == 0 for i in range(D)) if cfg["torus"] == "mixed" else cfg["torus"]
+    if cfg["cls"] == "ModelWrapper":
+        return models.ModelWrapper(D, _Identity(), s, flags)
+    if cfg["cls"] == "GroupAverage":
+        return models.GroupAverage(models.ModelWrapper(D, _Identity(), s, flags), zoo.banks(D)["ops"][: cfg["n_ops"]], always_average=cfg["always"])
+    n_lats = cfg["spatial"][1]
+    keys1d = models.Climate1D.get_1d_signature(s, n_lats)
+    return models.Climate1D(models.ModelWrapper(1, _Identity(), keys1d, True), s, cfg["past"], cfg["past"], tuple(cfg["spatial"]), {}, (True, False))
+
+
+def _exec_wrapper(plan: dict) -> dict:
+    """ModelWrapper / GroupAverage / Climate1D around an identity network: the output must be the input, exactly, by
+    type, with the requested type order, D, flags and spatial shape - fresh and after every life-cycle event."""
+    world = World(plan.get("seed", 0))
+    world.log.add("plan", {"cfg": plan["cfg"], "events": plan["events"]})
+    cfg = plan["cfg"]
+    violations: list[dict] = []
+    counters: dict[str, int] = {}
+    kinds: list[str] = []
+    evals = 0
+    site0 = f"{cfg['cls']}/wrapper"
+
+    def viol(clause, detail, where):
+        violations.append(Violation("C20", clause, {**detail, "after": where, "history": kinds[:], "cfg": cfg}, f"{site0}/{clause}/{where.split(':')[0]}").to_json())
+
+    torus = (True, False) if cfg["cls"] == "Climate1D" else cfg["torus"]
+    x = _int_input(cfg["sig"], cfg["D"], cfg["spatial"], torus, plan["x_seed"])
+    want_sig = [((k, p), c) for k, p, c in cfg["sig"]]
+
+    def check(m, xin, where, ordered=True, call=None):
+        nonlocal evals
+        try:
+            out = (call or zoo.call_model)(m, xin)
+        except Exception as e:
+            viol("raises", {"error": f"{type(e).__name__}: {str(e)[:300]}"}, where)
+            return
+        evals += 1
+        got = [(tuple(t), int(c)) for t, c in out.get_signature()] if len(out.keys()) else []
+        if sorted(got) != sorted(want_sig):
+            return viol("types_or_channels", {"got": got, "want": want_sig}, where)
+        if ordered and got != want_sig:
+            return viol("type_order", {"got": got, "want": want_sig}, where)
+        if out.D != x.D or tuple(out.is_torus) != tuple(x.is_torus):
+            return viol("D_or_flags", {"D": out.D, "is_torus": list(out.is_torus)}, where)
+        for t in x.keys():
+            a, b = np.asarray(out[t]), np.asarray(x[t])
+            if a.shape != b.shape:
+                return viol("block_shape", {"type": list(t), "got": list(a.shape), "want": list(b.shape)}, where)
+            if not np.array_equal(a, b):
+                return viol("component_position", {"type": list(t), "n_wrong": int(np.sum(a != b)), "n": int(a.size)}, where)
+        world.log.add("out", [arr_bytes(np.asarray(out[t])) for t in sorted(out.keys())])
+
+    try:
+        model = _build_wrapper(cfg)
+    except Exception as e:
+        viol("raises", {"error": f"{type(e).__name__}: {str(e)[:300]}"}, "construct")
+        return _result(world, 0, counters, ["construct_raises"], violations)
+    check(model, x, "fresh")
+    for ev in plan["events"]:
+        if violations:
+            break
+        kind = ev["ev"]
+        kinds.append(kind)
+        if kind == "tree_map":
+            model = jax.tree_util.tree_map(lambda a: a, model)
+            check(model, x, kind)
+        elif kind == "inference":
+            model = eqx.nn.inference_mode(model, ev["value"])
+            check(model, x, kind)
+        elif kind == "jit_call":
+            check(model, x, kind, ordered=False, call=eqx.filter_jit(lambda m, xx: zoo.call_model(m, xx)))
+        elif kind == "transported_input":
+            check(model, _transport_input(x, ev["kind"]), "transported_input:" + ev["kind"])
+        elif kind == "other_dimension" and cfg["cls"] != "Climate1D":
+            # the same signature is used in the other dimension in between (process-wide state keyed by the signature
+            # alone must not leak from one dimension into the other)
+            D2 = 3 if cfg["D"] == 2 else 2
+            sig2 = [[k, p, c] for k, p, c in cfg["sig"]]
+            m2 = models.ModelWrapper(D2, _Identity(), zoo.sig(sig2), True)
+            x2 = _int_input(sig2, D2, [2] * D2, True, plan["x_seed"] + 5)
+            try:
+                o2 = zoo.call_model(m2, x2)
+                for t in x2.keys():
+                    if not np.array_equal(np.asarray(o2[t]), np.asarray(x2[t])):
+                        viol("component_position", {"type": list(t), "D": D2}, kind)
+                        break
+            except Exception as e:
+                viol("raises", {"error": f"{type(e).__name__}: {str(e)[:300]}", "D": D2}, kind)
+            check(model, x, kind)
+        counters[kind] = counters.get(kind, 0) + 1
+    counters["wrapper_" + cfg["cls"]] = 1
+    if cfg["spatial"][-1] == sum(c * cfg["D"] ** k for k, _, c in cfg["sig"]) or cfg["spatial"][0] == sum(c * cfg["D"] ** k for k, _, c in cfg["sig"]):
+        counters["extent_equals_channel_count"] = 1
+    return _result(world, evals, counters, [cfg["cls"]] + kinds, violations)
+
+
 # --------------------------------------------------------------------------- execution
 def execute(plan: dict, ctx: dict) -> dict:
+    if plan.get("mode") == "wrapper":
+        return _exec_wrapper(plan)
     world = World(plan.get("seed", 0))
     rng = make_rng(plan.get("seed", 0) ^ 0x5EED)
     world.log.add("plan", {"cfg": plan["cfg"], "events": plan["events"]})
